@@ -6,6 +6,7 @@ opaque blobs with provenance.  Obligations at quiescence, per direction. '''
 from vf.engine import Ctx, cur, Cut, is_sym, blen, same_bytes, smin
 from checks.tcpcl_common import *
 
+MANIFEST = {'text': 'Bounded symbolic model checking: two real ContactHandler endpoints run on symbolic bundle lengths, segment sizes and MRUs (all in [0|1,2^64)) with opaque payloads through the real codec; every feasible path within the bounds is explored and each delivery/ordering/success obligation is discharged by z3 for all values on the path; counterexamples are replayed concretely.', 'note': 'Trusted: engine (vf/), stand-ins for dbus/GLib/sockets, z3. Bounds: bundles per direction, segments per bundle, scheduler deviations, CHUNK_SIZE lifted in most cases (evidence.coverage.bounds).', 'ref': '5 C01'}
 BOUNDS = {
     'quick': dict(bundles='A->B in {1,2}, B->A in {0,1}', segments_per_bundle='bounded by scheduler steps (<= ~4)',
                   sched_steps=160, sched_deviations=0, chunk='CHUNK_SIZE lifted to 2^72 (whole-buffer pumps) '
